@@ -61,3 +61,11 @@ package goja
 // The instructions of a compiled Program are shared by every Runtime that runs it: nothing outside the
 // compiler writes to an instruction's fields or into the maps and slices it holds.
 //@ immutable-impl instruction built-in compiler.go compiler_expr.go compiler_stmt.go
+
+// Readers of the lazily filled form: u may be read only after the flag was seen set, or after
+// ensureScanned()/scan() (which wait for the once-only initialisation) on the same string.
+//@ publishedby importedString.u importedString.scanned via (*importedString).ensureScanned (*importedString).scan
+
+// A Symbol is immutable after construction: every field, also one added later, is written only where
+// the Symbol is allocated (Symbols are shared between Runtimes).
+//@ stable Symbol.*
